@@ -69,6 +69,10 @@ Upd(e) ==
          /\ closeState' = CASE e.ev = "close.begin" -> "begun" [] e.ev = "close.unlock" -> "waiting"
                             [] OTHER -> "returned"
          /\ UNCHANGED <<cfg, calls, chosen, log, attempts, completions, hangs, tid>>
+    [] e.ev = "pw.new" ->
+         \* one partition writer (one sender goroutine) per topic-partition for the life of the Writer
+         /\ hangs' = IF <<"pw", e.tp>> \in hangs THEN hangs \cup {<<"dupwriter", 0>>} ELSE hangs \cup {<<"pw", e.tp>>}
+         /\ UNCHANGED obs /\ UNCHANGED tid
     [] e.ev = "hang" ->
          /\ hangs' = hangs \cup {<<e.what, e.c>>}
          /\ UNCHANGED obs /\ UNCHANGED tid
@@ -85,6 +89,8 @@ Spec == Init /\ [][Next]_mvars
 \* watchdog expires although no further input is needed
 C08_NoStuckCall == \A h \in hangs : h[1] # "call"
 C08_SingleTP == \A h \in hangs : h[1] # "badrequest"
+\* C07 (mechanism): a topic-partition never has two partition writers, i.e. two independent send queues
+C07_SingleSender == \A h \in hangs : h[1] # "dupwriter"
 \* C13 (Writer side): every partition list a Writer supplies to its balancer is the topic's full list, in order
 C13w_OfferedAll == \A h \in hangs : h[1] # "badoffer"
 \* C09 (liveness half, observed): Close returned before the watchdog expired
